@@ -138,6 +138,14 @@ fn gen_layers(r: &mut Rng, d0: usize, tier: &str) -> Vec<Layer> {
         layers.push(Layer::Linear(gen_linear(r, w, cur)));
         cur = w;
     }
+    // heads over four or five classes now and then (deeper argmax trees: more pruning and forwarding inside one terminal)
+    if r.chance(1, 5) {
+        let w = 4 + r.below(2);
+        layers.push(Layer::Linear(gen_linear(r, w, cur)));
+        cur = w;
+        layers.push(Layer::Argmax);
+        return layers;
+    }
     if cur >= 2 {
         match r.below(4) {
             0 => layers.push(Layer::Argmax),
